@@ -25,13 +25,19 @@ P = {
  "C03": ("Rocq theorems: PrefixScan/PrefixSearchScan on any sorted index with any mix of live, deleted and expired records = skip offset "
          "live prefixed keys, keep matching ones, at most limit (kv_prefix_scan_spec); pages concatenate to the live keys "
          "(prefix_pages_complete). Tie: scan-heavy histories, multi-level trees and a paging sweep over contents x prefix x offset x limit, "
-         "each result compared with model and L0 spec; binary keys and prefixes ending in 0xFF/0x00.", "regexp verdicts are an oracle input (Go regexp evaluated by the harness over the key universe). "
-         "Sparse index mode is not modelled (see C02)."),
+         "each result compared with model and L0 spec; binary keys and prefixes ending in 0xFF/0x00; the same sweep after a Merge in the same "
+         "process lifetime; the sparse index mode with keys spread over sealed segments (sparsepage: the model is run with RAM semantics, "
+         "sparse pages must equal RAM pages; found and fixed 7531a1a). Code level: pageEntries (the sparse-mode paging), translated from the "
+         "source on every run, equals the specification's skip / filter / take for all inputs (C03_code.v).",
+         "regexp verdicts are an oracle input (Go regexp evaluated by the harness over the key universe; in the translation a compiled "
+         "regexp is an arbitrary predicate). The B+ tree walk of the RAM modes and the collection of the sparse-mode key list are tied by "
+         "the correspondence check only."),
  "C04": ("Rocq theorems: applying/replaying records of bucket A leaves bucket_view of every B<>A unchanged (commit_index_frame, "
          "replay_frame), same key in two buckets kept apart. Tie: histories over adversarial names ('', a, ab, abc; keys bc, c, ...) for all "
          "four structures in the RAM modes against model and per-bucket L0 spec. Translation tie (C04_code.v): getNewKey as translated "
          "from /repo is bucket ++ key, with the colliding pair of known finding F18 as a code-level example.",
-         "RAM index modes only: the sparse mode keys its index by bucket++key (known ambiguity, see C02 note)."),
+         "RAM index modes, plus Get in the sparse mode on prefix-related bucket names whose bucket+key concatenations do not coincide "
+         "(profile sparsepfx): the sparse mode keys its index by bucket++key, scans across such buckets are known finding F18."),
  "C05": ("Rocq theorems: LRange/LTrim/LRem/LSet/push/pop of the model (written after ds/list) equal a Redis-style specification for all "
          "64-bit arguments; logged encodings count|value, key|index round-trip (values with '|'). Tie: transaction-level and ds-level "
          "(exported list type) random sequences incl. +-2^63 against model and spec; argument buffers are reused with spare capacity. "
@@ -102,17 +108,21 @@ P = {
          "race detector run is search, not proof."),
  "C17": ("Rocq theorems: after fix 12b9f00 Merge runs under the write lock, i.e. it is a write transaction of the protocol model; the C14 "
          "theorems give exclusion, strict serializability and deadlock-freedom with Merge among the transactions; C15 covers what the step "
-         "does. Tie: the C14 scenario with a goroutine calling Merge repeatedly, under -race, replayed serially by model and spec.",
+         "does. Tie: the C14 scenario with a goroutine calling Merge repeatedly, under -race, replayed serially by model and spec; the Backup "
+         "schedules of C18 (Backup is a read transaction: Merge must wait for it and it for Merge).",
          "PARTIAL as C14. Lists are excluded from the concurrent-merge workload (known finding F14)."),
  "C18": ("Rocq theorems: Backup's copy step is pure; while a reader is in progress the shared state does not change (ConcFacts), and the "
          "copied directory opens with any options to identical indexes (reopen_preserves). Tie: generated histories followed by Backup with "
-         "the copy parked on a FIFO while a writer tries to commit (must block), then the copy is opened and fully observed, every index "
-         "mode x RWMode.", "PARTIAL as C14 for the runtime part; filesystem.CopyDir is trusted."),
+         "the copy parked on a FIFO while a writer tries to commit (must block) or a Merge is issued (must wait), Backup called while a writer "
+         "holds the lock and rotates the segment (the copy must contain its transaction), Backup called while Merge removes old segments (the "
+         "copy must be the merged directory); the copy is opened and fully observed, every index mode x RWMode.", "PARTIAL as C14 for the runtime part; filesystem.CopyDir is trusted."),
  "C15": ("Rocq theorems on the Merge model (Merge.v): dead and uncommitted records are never rewritten; refused Merge is a no-op; key/value "
          "contents preserved by Merge in every reachable world (MergeFacts); sets and sorted sets (MergeDS): in the running process Merge leaves "
          "their indexes untouched, and after a successful Merge and a reopen every set key with a member keeps exactly its members and every "
          "sorted-set bucket with a node exactly its nodes in order (the last theorem could only be closed after fix 71d5512, which its "
-         "counterexample motivated). Tie: histories with Merge at arbitrary points, "
+         "counterexample motivated); WHOLE HISTORIES with Merges at any point (HistoryMerge, HistoryMergeDS): the engine refines the "
+         "specification that ignores Merge - key/value calls always, all calls when no Open follows a Merge or when nothing is empty at such "
+         "an Open, and up to F30 otherwise; every hypothesis shown necessary by a counterexample theorem. Tie: histories with Merge at arbitrary points, "
          "repeatedly, more writes, reopens, both RAM modes: impl = Merge model = L0 spec (Merge is the identity); I/O errors injected at every "
          "mutation point of Merge. Translation tie (C15_code.v): isFilterEntry and IsExpired as translated from /repo equal the model's filter.",
          "KNOWN FINDINGS F14 (lists) and F30 (existence of empty structures) are reported as KNOWN-FINDING and attributed narrowly."),
@@ -142,7 +152,7 @@ P = {
          "refused Open and identical observations for accepted ones.", ""),
 }
 TECH = "Rocq (Coq 8.16.1) proof over an executable Gallina model + differential correspondence model vs code"
-TIED = {"C01", "C04", "C05", "C06", "C07", "C12", "C13", "C15", "C20", "C21"}
+TIED = {"C01", "C03", "C04", "C05", "C06", "C07", "C12", "C13", "C15", "C20", "C21"}
 cat = {"C09": "proof", "C16": "proof"}
 checks = []
 for pid in sorted(P):
